@@ -1037,6 +1037,9 @@ def _dispatch(chk, DispatcherMiddleware, add, quick, corpus) -> None:
         except Exception as e:  # noqa: BLE001
             chk.fail("dispatch-raises", f"DispatcherMiddleware raised {type(e).__name__}: {e}", inp)
             return
+        if seen["script"] + seen["path"] != script0 + path:
+            chk.fail("dispatch-concat", f"SCRIPT_NAME + PATH_INFO = {seen['script'] + seen['path']!r}, was {script0 + path!r}", inp)
+            return
         if not seen["script"].startswith(script0):
             chk.fail("dispatch-script-name", f"SCRIPT_NAME {seen['script']!r} lost its previous value {script0!r}", inp)
             return
@@ -1058,6 +1061,8 @@ def _dispatch(chk, DispatcherMiddleware, add, quick, corpus) -> None:
                  sample={"op": "dispatch", "mounts": list(mounts), "PATH_INFO": path, "impl": [seen["app"], script, seen["path"]]}
                  if len(mounts) > 2 and seen["app"] else None)
 
+    for script0 in ("/outer/", "/outer//", "/", ""):       # an incoming SCRIPT_NAME is kept as it is, trailing slashes included
+        one({"/api": 1, "/api/v2": 2}, "/api/v2/users", script0)
     for ms, path in corpus.get("dispatch", []):
         mounts = {k: 1 for k in ms}
         one(mounts, path, "")
@@ -1068,7 +1073,7 @@ def _dispatch(chk, DispatcherMiddleware, add, quick, corpus) -> None:
             path = rng.choice(list(mounts)) + "".join(rng.choice(["/", ""]) + rng.choice(segs) for _ in range(rng.randint(0, 3)))
         else:
             path = "".join(rng.choice(["/", "/", "", "//"]) + rng.choice(segs) for _ in range(rng.randint(0, 5)))
-        one(mounts, path, rng.choice(["", "", "/outer"]))
+        one(mounts, path, rng.choice(["", "", "/outer", "/outer/", "/outer//", "/", "//", "/a/b/"]))
 
 
 def _escape_for_builder(p: str) -> str:
